@@ -1187,3 +1187,343 @@ Proof.
         | presA ].
 Qed.
 End FootprintOps3.
+
+(* ------------------------------------------------------------------ whole builds and histories *)
+Definition no_reset (ops : list op) : Prop := Forall (fun o => is_reset o = false) ops.
+
+Lemma footprint_build c0 ops : no_reset ops -> forall s rs es t, FP c0 s -> run true ops s = Some (rs, es, t) -> FP c0 t.
+Proof.
+  induction 1 as [|o ops Ho Hops IH]; intros s rs es t HP Hr.
+  - simpl in Hr. injection Hr as _ _ <-. exact HP.
+  - cbn [run] in Hr. pose proof (pres_step c0 o Ho s HP) as K.
+    destruct (step true o s) as [a s1 e1|]; [|discriminate].
+    destruct (run true ops s1) as [[[rs' es'] t']|] eqn:E; [|discriminate].
+    injection Hr as _ _ <-. eapply IH; eauto.
+Qed.
+
+Lemma FP_self s : FP (caps s) s.
+Proof. intros k _ _. lia. Qed.
+
+(* what custom_reset does to the capacities *)
+Lemma reset_buffers_caps ks r s : fa s < 0 ->
+  exists c, reset_buffers ks r s = Ret true (set_caps c s) [] /\
+            forall k, k <> HT -> cap_get k c <= Z.max (cap_get k (caps s)) (alloc_min k).
+Proof.
+  intros Hfa. revert s Hfa. induction ks as [|k ks IH]; intros s Hfa.
+  - exists (caps s). split; [destruct s; reflexivity | intros; lia].
+  - cbn [reset_buffers]. unfold bind at 1. unfold get at 1.
+    destruct (negb (cap_get k (caps s) =? 0) && r && match k with HT => false | _ => true end) eqn:Ec.
+    + unfold bind at 1. unfold alloc_call.
+      assert (F1 : (fa s =? 0) = false) by lia. assert (F2 : (0 <? fa s) = false) by lia. rewrite F1, F2.
+      set (s1 := set_caps (cap_set k (default_alloc k (cap_get k (caps s)) 1) (caps s)) s).
+      destruct (IH s1 Hfa) as (c & -> & Hc). exists c. split; [reflexivity|].
+      intros k' Hk'. specialize (Hc k' Hk'). subst s1. cbn [caps set_caps] in Hc.
+      destruct (bk_eq_dec k' k) as [->|Hne].
+      * rewrite cap_get_set_same in Hc. pose proof (default_alloc_bound k (cap_get k (caps s)) 1 Hk').
+        unfold G in H. pose proof (alloc_min_pos k Hk'). assert (alloc_min k >= 2) by (destruct k; try congruence; cbv; congruence). lia.
+      * rewrite cap_get_set_other in Hc; auto.
+    + unfold bind at 1. unfold ret at 1. destruct (IH s Hfa) as (c & -> & Hc). exists c. split; [reflexivity | exact Hc].
+Qed.
+
+Lemma reset_caps d r s t ev : fa s < 0 -> custom_reset true d r s = Ret 0 t ev ->
+  forall k, k <> HT -> cap_get k (caps t) <= Z.max (cap_get k (caps s)) (alloc_min k).
+Proof.
+  intros Hfa. unfold custom_reset. unfold bind at 1.
+  destruct (reset_buffers_caps all_kinds r s Hfa) as (c & -> & Hc). cbn [negb].
+  unfold bind, upd, get, ret. cbn.
+  destruct (0 <? vd_end s); destruct d; cbn; intros E; injection E as <- _;
+    unfold emitter_reset; match goal with |- context [if ?b then _ else _] => destruct b end; exact Hc.
+Qed.
+
+(* a history: builds (call sequences without reset) each followed by custom_reset *)
+Definition build := (list op * bool * bool)%type.
+Fixpoint hist_run (h : list build) (s : bstate) : option bstate :=
+  match h with
+  | [] => Some s
+  | (ops, d, r) :: h' =>
+      match run true ops s with
+      | None => None
+      | Some (_, _, t) =>
+          match custom_reset true d r t with
+          | Ret 0 t' _ => hist_run h' t'
+          | _ => None
+          end
+      end
+  end.
+
+(* a builder that has only been initialised and configured *)
+Definition configured (f : bstate) : Prop := exists x, f = fresh_like false x.
+Lemma configured_fresh_like d x : configured (fresh_like d x).
+Proof. destruct d; [exists st_init; reflexivity | exists x; reflexivity]. Qed.
+
+(* the demand of a build on a freshly initialised builder stays below B *)
+Definition fresh_demand_le (B : bk -> Z) (ops : list op) : Prop :=
+  forall f rs es t, configured f -> run true ops f = Some (rs, es, t) -> forall k, cap_get k (dem t) <= B k.
+
+Definition core_fresh (s : bstate) : Prop := exists f, configured f /\ R s f.
+
+Lemma dem_R s1 s2 : R s1 s2 -> dem s1 = dem s2.
+Proof. intros H. unfold R in H. ceq H dem. exact Hc. Qed.
+
+Theorem footprint_history B h : 
+  Forall (fun b : build => no_reset (fst (fst b)) /\ fresh_demand_le B (fst (fst b))) h ->
+  forall s t, Inv s -> core_fresh s -> (forall k, k <> HT -> k <> VD -> cap_get k (caps s) <= G k (B k)) ->
+  hist_run h s = Some t ->
+  Inv t /\ core_fresh t /\ forall k, k <> HT -> k <> VD -> cap_get k (caps t) <= G k (B k).
+Proof.
+  induction 1 as [|[[ops d] r] h [Hnr Hdem] Hh IH]; intros s t HI (f & Hcf & HR) Hcap Hrun.
+  - simpl in Hrun. injection Hrun as <-. split; [auto|]. split; [exists f; auto | auto].
+  - cbn [hist_run fst] in *. 
+    assert (If : Inv f) by (destruct Hcf as [x ->]; apply Inv_fresh_like).
+    pose proof (run_respects ops s f HR HI If) as Hrr. unfold run_rel in Hrr.
+    destruct (run true ops s) as [[[rs es] t1]|] eqn:E1; [|discriminate].
+    destruct (run true ops f) as [[[rs' es'] t1']|] eqn:E2; [|contradiction].
+    destruct Hrr as (_ & _ & HR1 & I1 & _).
+    pose proof (Hdem f rs' es' t1' Hcf E2) as Hd. rewrite <- (dem_R _ _ HR1) in Hd.
+    pose proof (footprint_build (caps s) ops Hnr s rs es t1 (FP_self s) E1) as Hfp.
+    pose proof I1 as (Hfa & Hfe & _).
+    destruct (reset_spec d r t1 Hfa Hfe) as (t2 & Er & C2 & I2).
+    pose proof (reset_caps d r t1 t2 [] Hfa Er) as Hrc.
+    rewrite Er in Hrun.
+    eapply IH; eauto.
+    + exists (fresh_like d t1). split; [apply configured_fresh_like | exact C2].
+    + intros k H1 H2. specialize (Hrc k H1). specialize (Hfp k H1 H2). specialize (Hcap k H1 H2).
+      pose proof (G_mono k _ _ (Hd k)). pose proof (G_min k (B k)). lia.
+Qed.
+
+Lemma Inv_init : Inv st_init. Proof. apply (Inv_fresh_like true st_init). Qed.
+
+Corollary footprint_bounded_lemma B h t :
+  Forall (fun b : build => no_reset (fst (fst b)) /\ fresh_demand_le B (fst (fst b))) h ->
+  hist_run h st_init = Some t ->
+  forall k, k <> HT -> k <> VD -> cap_get k (caps t) <= G k (B k).
+Proof.
+  intros Hh Hr. eapply (footprint_history B h Hh st_init t); auto.
+  - apply Inv_init.
+  - exists st_init. split; [exists st_init; reflexivity | apply R_refl].
+  - intros k _ _. pose proof (G_min k (B k)).
+    assert (0 <= alloc_min k) by (destruct k; cbv; congruence).
+    assert (cap_get k (caps st_init) = 0) as -> by (destruct k; reflexivity). lia.
+Qed.
+
+(* ------------------------------------------------------------------ the emitter's page pool *)
+Lemma PAGE_SIZE_pos : 0 < PAGE_SIZE. Proof. reflexivity. Qed.
+
+Lemma drop_pages_bound fuel : forall cap avg, cap < (Z.of_nat fuel + 1) * PAGE_SIZE ->
+  drop_pages fuel cap avg <= Z.max PAGE_SIZE (2 * avg) /\ drop_pages fuel cap avg <= cap.
+Proof.
+  pose proof PAGE_SIZE_pos as HP.
+  induction fuel as [|f IH]; intros cap avg Hc; cbn [drop_pages].
+  - cbn in Hc. lia.
+  - destruct ((avg * 2 <? cap) && (PAGE_SIZE <? cap)) eqn:E; [|lia].
+    specialize (IH (cap - PAGE_SIZE) avg). 
+    assert (cap - PAGE_SIZE < (Z.of_nat f + 1) * PAGE_SIZE) by (unfold PAGE_SIZE in *; lia). specialize (IH H). lia.
+Qed.
+
+(* after flatcc_emitter_reset: at most one page or twice the running average, which never exceeds the largest
+   amount emitted by a single build *)
+Lemma emitter_reset_bound U s : 0 <= e_cap s -> 0 <= e_used s <= U -> 0 <= e_avg s <= U ->
+  let t := emitter_reset s in
+  e_cap t <= Z.max (e_cap s) 0 /\ (e_cap s <> 0 -> e_cap t <= Z.max PAGE_SIZE (2 * U)) /\ 0 <= e_avg t <= U /\ e_used t = 0 \/ e_cap s = 0 /\ t = s.
+Proof.
+  intros Hc Hu Ha. unfold emitter_reset. destruct (e_cap s =? 0) eqn:E; [right; split; [lia|reflexivity]|left].
+  cbn. pose proof PAGE_SIZE_pos as HP.
+  set (a0 := if e_avg s =? 0 then e_used s else e_avg s).
+  assert (0 <= a0 <= U) by (subst a0; destruct (e_avg s =? 0); lia).
+  set (a := a0 * 3 / 4 + e_used s / 4). assert (0 <= a <= U) by (subst a; lia).
+  pose proof (drop_pages_bound (Z.to_nat (e_cap s / PAGE_SIZE)) (e_cap s) a) as K.
+  assert (e_cap s < (Z.of_nat (Z.to_nat (e_cap s / PAGE_SIZE)) + 1) * PAGE_SIZE).
+  { rewrite Z2Nat.id by (unfold PAGE_SIZE in *; lia). unfold PAGE_SIZE in *; lia. }
+  specialize (K H1). osplit; try lia.
+Qed.
+
+(* ------------------------------------------------------------------ reduce_buffers with the default allocator *)
+Lemma grow_small fuel n : n >= 1 -> grow (S fuel) n 1 = n.
+Proof. intros. cbn [grow]. destruct (n <? 1) eqn:E; [lia | reflexivity]. Qed.
+
+Lemma default_alloc_reduce_noop k j : k <> HT -> 0 <= j ->
+  default_alloc k (alloc_min k * 2 ^ j) 1 = alloc_min k * 2 ^ j.
+Proof.
+  intros Hk Hj. pose proof (alloc_min_pos k Hk) as Hm. unfold default_alloc. cbn [Z.eqb].
+  assert (Hg : grow 64 (alloc_min k) 1 = alloc_min k) by (apply (grow_small 63); lia).
+  assert (Hn : (match k with HT => 1 | _ => grow 64 (alloc_min k) 1 end) = alloc_min k) by (destruct k; congruence).
+  rewrite Hn.
+  assert (0 < 2 ^ j) by (apply Z.pow_pos_nonneg; lia).
+  destruct (Z.eq_dec j 0) as [->|Hj0].
+  - change (2 ^ 0) with 1. rewrite Z.mul_1_r.
+    destruct ((1 <=? alloc_min k) && (alloc_min k <=? alloc_min k / 2)); reflexivity.
+  - assert (E : 2 ^ j = 2 * 2 ^ (j - 1)) by (rewrite <- Z.pow_succ_r by lia; f_equal; lia).
+    assert (0 < 2 ^ (j - 1)) by (apply Z.pow_pos_nonneg; lia).
+    assert (Hc : (1 <=? alloc_min k * 2 ^ j) && (alloc_min k <=? alloc_min k * 2 ^ j / 2) = true).
+    { rewrite E. replace (alloc_min k * (2 * 2 ^ (j - 1))) with ((alloc_min k * 2 ^ (j - 1)) * 2) by ring.
+      rewrite Z.div_mul by lia. nia. }
+    rewrite Hc. reflexivity.
+Qed.
+
+(* ------------------------------------------------------------------ each distinct vtable once per buffer *)
+Definition is_vt (e : event) : bool := ev_kind e =? EK_vtable.
+Definition vkey (e : event) : Z * list Z := (ev_nest e, ev_bytes e).
+(* every vtable emitted so far is still in the cache, under the buffer it was emitted for *)
+Definition cache_complete (es : list event) (s : bstate) : Prop :=
+  forall e, In e es -> is_vt e = true -> find_exact (ev_bytes e) (ev_nest e) (vcache s) <> None.
+Definition VT (es : list event) (s : bstate) : Prop :=
+  NoDup (map vkey (filter is_vt es)) /\ cache_complete es s /\ vb_flush_limit s = 0 /\ fa s < 0 /\ fe s < 0.
+Definition vtok {A} (m : M A) : Prop :=
+  forall es s, VT es s -> match m s with Ret _ t e => VT (es ++ e) t | Fault => True end.
+(* calls that neither emit vtables nor touch the cache or the countdowns *)
+Definition Q (s t : bstate) : Prop :=
+  vcache t = vcache s /\ vb_flush_limit t = vb_flush_limit s /\ nest_id t = nest_id s /\
+  (fa s < 0 -> fa t = fa s) /\ (fe s < 0 -> fe t = fe s).
+Definition quiet {A} (m : M A) : Prop :=
+  forall s, match m s with Ret _ t e => Q s t /\ Forall (fun ev => is_vt ev = false) e | Fault => True end.
+
+Lemma Q_refl s : Q s s. Proof. unfold Q; auto. Qed.
+Lemma Q_trans s t u : Q s t -> Q t u -> Q s u.
+Proof. unfold Q. intros (a & b & c & d & e) (a' & b' & c' & d' & e'). osplit; try congruence; intros.
+  - rewrite d'; auto. rewrite d; auto. - rewrite e'; auto. rewrite e; auto. Qed.
+
+Lemma quiet_ret {A} (a : A) : quiet (ret a). Proof. intros s; simpl; split; [apply Q_refl | constructor]. Qed.
+Lemma quiet_fault {A} : quiet (@fault A). Proof. intros s; exact I. Qed.
+Lemma quiet_get {A} (f : bstate -> A) : quiet (get f). Proof. intros s; simpl; split; [apply Q_refl | constructor]. Qed.
+Lemma quiet_top {A} (f : frame -> A) : quiet (top f).
+Proof. intros s. unfold top. destruct (frames s); simpl; auto. split; [apply Q_refl | constructor]. Qed.
+Lemma quiet_upd g : (forall s, Q s (g s)) -> quiet (upd g). Proof. intros H s; simpl; split; [apply H | constructor]. Qed.
+Lemma quiet_bind {A B} (m : M A) (k : A -> M B) : quiet m -> (forall a, quiet (k a)) -> quiet (bind m k).
+Proof.
+  intros Hm Hk s. unfold bind. specialize (Hm s). destruct (m s) as [a t e|]; auto.
+  specialize (Hk a t). destruct (k a t); auto. destruct Hm, Hk. split; [eapply Q_trans; eauto | apply Forall_app; auto].
+Qed.
+Create HintDb quiet_db.
+Ltac quiet1 :=
+  first
+  [ apply quiet_ret | apply quiet_fault | apply quiet_get | apply quiet_top
+  | solve [auto with quiet_db nocore]
+  | apply quiet_upd; intros; unfold Q; cbn; auto
+  | apply quiet_bind; [ | intro ]
+  | match goal with |- quiet (if ?b then _ else _) => destruct b end
+  | match goal with |- quiet (match ?x with _ => _ end) => destruct x end
+  | match goal with |- quiet (let '(_, _) := ?x in _) => destruct x end ].
+Ltac quietA := repeat quiet1.
+
+Lemma quiet_alloc_call k n : quiet (alloc_call k n).
+Proof.
+  intros s. unfold alloc_call. destruct (fa s =? 0) eqn:E.
+  - split; [|constructor]. destruct (fa_rep s); unfold Q; cbn; osplit; auto; intros; lia.
+  - split; [|constructor]. destruct (0 <? fa s) eqn:E2; unfold Q; cbn; osplit; auto; intros; lia.
+Qed.
+Lemma quiet_note_demand k r : quiet (note_demand k r).
+Proof. unfold note_demand. destruct k; quietA. Qed.
+Global Hint Resolve quiet_alloc_call quiet_note_demand : quiet_db.
+Lemma quiet_reserve_raw k u n : quiet (reserve_raw k u n).
+Proof. intros s. unfold reserve_raw. destruct (cap_get k (caps s) <? u + n); [apply quiet_alloc_call | apply (quiet_ret true s)]. Qed.
+Global Hint Resolve quiet_reserve_raw : quiet_db.
+Lemma quiet_reserve_buffer k u n : quiet (reserve_buffer k u n).
+Proof. unfold reserve_buffer. quietA. Qed.
+Lemma quiet_set_top g : quiet (set_top g).
+Proof. intros s. unfold set_top. destruct (frames s); simpl; auto. split; [unfold Q; cbn; auto | constructor]. Qed.
+Lemma quiet_set_top_nf g : quiet (set_top_nf g).
+Proof. intros s. unfold set_top_nf. destruct (frames s); simpl; (split; [unfold Q; cbn; auto | constructor]). Qed.
+Lemma quiet_pop_frame : quiet pop_frame.
+Proof. intros s. unfold pop_frame. destruct (frames s); simpl; auto. split; [unfold Q; cbn; auto | constructor]. Qed.
+Global Hint Resolve quiet_reserve_buffer quiet_set_top quiet_set_top_nf quiet_pop_frame : quiet_db.
+Lemma quiet_emit_data r b : quiet (emit_call r EK_data b).
+Proof.
+  intros s. unfold emit_call. destruct (fe s =? 0) eqn:E.
+  - split; [|constructor]. destruct (fe_rep s); unfold Q; cbn; osplit; auto; intros; lia.
+  - split; [|repeat constructor].
+    unfold emitter_emit. destruct (0 <? fe s) eqn:E2;
+      repeat match goal with |- context [if ?b then _ else _] => destruct b end; unfold Q; cbn; osplit; auto; intros; lia.
+Qed.
+Global Hint Resolve quiet_emit_data : quiet_db.
+Ltac q f := unfold f; quietA.
+Lemma quiet_refresh_ds l : quiet (refresh_ds l). Proof. q refresh_ds. Qed.
+Global Hint Resolve quiet_refresh_ds : quiet_db.
+Lemma quiet_reserve_ds n l : quiet (reserve_ds n l). Proof. q reserve_ds. Qed.
+Global Hint Resolve quiet_reserve_ds : quiet_db.
+Lemma quiet_ensure_ds b o n l : quiet (ensure_ds b o n l). Proof. q ensure_ds. Qed.
+Lemma quiet_raise_min_align a : quiet (raise_min_align a). Proof. q raise_min_align. Qed.
+Lemma quiet_expect_type t : quiet (expect_type t). Proof. q expect_type. Qed.
+Global Hint Resolve quiet_ensure_ds quiet_raise_min_align quiet_expect_type : quiet_db.
+Lemma quiet_push_ds n d : quiet (push_ds n d). Proof. q push_ds. Qed.
+Lemma quiet_unpush_ds n : quiet (unpush_ds n). Proof. q unpush_ds. Qed.
+Lemma quiet_frame_slot lv : quiet (frame_slot lv). Proof. q frame_slot. Qed.
+Global Hint Resolve quiet_push_ds quiet_unpush_ds quiet_frame_slot : quiet_db.
+Lemma quiet_enter_frame a : quiet (enter_frame a). Proof. q enter_frame. Qed.
+Lemma quiet_exit_frame : quiet exit_frame. Proof. q exit_frame. Qed.
+Lemma quiet_front_pad n a : quiet (front_pad n a). Proof. q front_pad. Qed.
+Lemma quiet_back_pad a : quiet (back_pad a). Proof. q back_pad. Qed.
+Lemma quiet_emit_front b : quiet (emit_front EK_data b). Proof. q emit_front. Qed.
+Lemma quiet_emit_back b : quiet (emit_back EK_data b). Proof. q emit_back. Qed.
+Global Hint Resolve quiet_enter_frame quiet_exit_frame quiet_front_pad quiet_back_pad quiet_emit_front quiet_emit_back : quiet_db.
+Lemma quiet_align_buffer_end a b n : quiet (align_buffer_end a b n). Proof. q align_buffer_end. Qed.
+Global Hint Resolve quiet_align_buffer_end : quiet_db.
+Lemma quiet_create_buffer i b r a f : quiet (create_buffer i b r a f). Proof. q create_buffer. Qed.
+Lemma quiet_create_struct d a : quiet (create_struct d a). Proof. q create_struct. Qed.
+Lemma quiet_create_string d : quiet (create_string d). Proof. q create_string. Qed.
+Lemma quiet_create_vector d c e a m : quiet (create_vector d c e a m). Proof. q create_vector. Qed.
+Lemma quiet_create_offset_vector_direct d c : quiet (create_offset_vector_direct d c). Proof. q create_offset_vector_direct. Qed.
+Lemma quiet_create_table d a o v : quiet (create_table d a o v). Proof. q create_table. Qed.
+Lemma quiet_reserve_fields c : quiet (reserve_fields c). Proof. q reserve_fields. Qed.
+Lemma quiet_vector_count_add c m : quiet (vector_count_add c m). Proof. q vector_count_add. Qed.
+Lemma quiet_exit_user_frame : quiet exit_user_frame. Proof. q exit_user_frame. Qed.
+Global Hint Resolve quiet_create_buffer quiet_create_struct quiet_create_string quiet_create_vector quiet_create_offset_vector_direct
+  quiet_create_table quiet_reserve_fields quiet_vector_count_add quiet_exit_user_frame : quiet_db.
+Lemma quiet_alloc_ht : quiet alloc_ht. Proof. q alloc_ht. Qed.
+Global Hint Resolve quiet_alloc_ht : quiet_db.
+Lemma quiet_ensure_ht : quiet ensure_ht. Proof. q ensure_ht. Qed.
+
+Lemma filter_quiet es e : Forall (fun ev => is_vt ev = false) e -> filter is_vt (es ++ e) = filter is_vt es.
+Proof.
+  intros H. rewrite filter_app. induction H as [|x l Hx Hl IH]; [apply app_nil_r|]. cbn [filter]. rewrite Hx. exact IH.
+Qed.
+
+Lemma quiet_vtok {A} (m : M A) : quiet m -> vtok m.
+Proof.
+  intros H es s (ND & CC & FL & FA & FE). specialize (H s). destruct (m s) as [a t e|]; auto.
+  destruct H as [(Hvc & Hfl & _ & Hfa & Hfe) Hev]. unfold VT. rewrite (filter_quiet _ _ Hev). osplit; auto; try lia.
+  - intros ev Hin Hv. apply in_app_or in Hin as [Hin|Hin].
+    + rewrite Hvc. apply CC; auto.
+    + rewrite Forall_forall in Hev. rewrite (Hev _ Hin) in Hv. discriminate.
+  - rewrite Hfa; auto.
+  - rewrite Hfe; auto.
+Qed.
+
+Lemma vtok_bind {A B} (m : M A) (k : A -> M B) : vtok m -> (forall a, vtok (k a)) -> vtok (bind m k).
+Proof.
+  intros Hm Hk es s H. unfold bind. specialize (Hm es s H). destruct (m s) as [a t e|]; auto.
+  specialize (Hk a (es ++ e) t Hm). destruct (k a t); auto. rewrite app_assoc. exact Hk.
+Qed.
+
+Lemma list_eqb_refl l : list_eqb l l = true.
+Proof. induction l; cbn; auto. rewrite Z.eqb_refl. exact IHl. Qed.
+Lemma list_eqb_eq a b : list_eqb a b = true -> a = b.
+Proof.
+  revert b. induction a as [|x a IH]; destruct b as [|y b]; cbn; try congruence.
+  intros H. apply andb_prop in H as [H1 H2]. apply Z.eqb_eq in H1. f_equal; auto.
+Qed.
+
+Lemma NoDup_app_single {A} (l : list A) (x : A) : NoDup l -> ~ In x l -> NoDup (l ++ [x]).
+Proof.
+  induction 1 as [|y l Hy Hl IH]; intros Hx; cbn.
+  - constructor; [intros [] | constructor].
+  - constructor.
+    + intros Hin. apply in_app_or in Hin as [Hin|[<-|[]]]; [contradiction|]. apply Hx. left; reflexivity.
+    + apply IH. intros Hin. apply Hx. right; exact Hin.
+Qed.
+
+(* the state after a vtable has been emitted and entered into the cache *)
+Lemma VT_insert es s t ref vt vbs :
+  VT es s -> find_exact vt (nest_id s) (vcache s) = None ->
+  vcache t = mkvd vt (nest_id s) ref vbs :: vcache s -> vb_flush_limit t = 0 -> fa t < 0 -> fe t < 0 ->
+  VT (es ++ [mkev ref EK_vtable (nest_id s) vt]) t.
+Proof.
+  intros (ND & CC & FL & FA & FE) Hmiss Hvc Hfl Hfa Hfe. unfold VT. osplit; auto.
+  - rewrite filter_app, map_app. cbn. apply NoDup_app_single.
+    + exact ND.
+    + intros Hin. apply in_map_iff in Hin as (e & Hk & Hin). apply filter_In in Hin as [Hin Hv].
+      unfold vkey in Hk. cbn in Hk. injection Hk as Hn Hb. specialize (CC e Hin Hv). rewrite Hn, Hb in CC. contradiction.
+  - intros e Hin Hv. rewrite Hvc. unfold find_exact. cbn [find vd_vt vd_nest].
+    apply in_app_or in Hin as [Hin|[<-|[]]].
+    + destruct (list_eqb vt (ev_bytes e) && (nest_id s =? ev_nest e)); [discriminate | apply CC; auto].
+    + cbn. rewrite list_eqb_refl, Z.eqb_refl. discriminate.
+Qed.
